@@ -207,6 +207,100 @@ theorem parseDecimal_int {dv : Nat → Option Nat} (h : DvOK dv) (s : Str) (hs :
   simp only [List.append_nil] at this
   simp [this, takeDigits]
 
+/-! ## fractional amounts: `str(Decimal)` with a negative exponent, and reading it back -/
+
+theorem decStr_fracA (c k : Nat) (h1 : (nstr c).length ≤ k) (h2 : k < (nstr c).length + 6) :
+    decStr false c (-(k : Int)) = 48 :: 46 :: (List.replicate (k - (nstr c).length) 48 ++ nstr c) := by
+  have hlen : 0 < (nstr c).length := List.length_pos_iff.mpr (nstr_ne_nil c)
+  unfold decStr
+  have c1 : (-(k : Int) ≤ 0 ∧ -(k : Int) + ((nstr c).length : Int) > -6) := by omega
+  simp only [c1, and_self, if_true]
+  have c2 : (-(k : Int) + ((nstr c).length : Int) ≤ 0) := by omega
+  simp only [c2, if_true]
+  have c3 : (-(-(k : Int) + ((nstr c).length : Int))).toNat = k - (nstr c).length := by omega
+  simp [c3]
+
+theorem decStr_fracB (c k : Nat) (h0 : 1 ≤ k) (h1 : k < (nstr c).length) :
+    decStr false c (-(k : Int)) = (nstr c).take ((nstr c).length - k) ++ 46 :: (nstr c).drop ((nstr c).length - k) := by
+  unfold decStr
+  have c1 : (-(k : Int) ≤ 0 ∧ -(k : Int) + ((nstr c).length : Int) > -6) := by omega
+  simp only [c1, and_self, if_true]
+  have c2 : ¬ (-(k : Int) + ((nstr c).length : Int) ≤ 0) := by omega
+  have c4 : ¬ (-(k : Int) + ((nstr c).length : Int) ≥ ((nstr c).length : Int)) := by omega
+  simp only [c2, c4, if_false]
+  have c3 : (-(k : Int) + ((nstr c).length : Int)).toNat = (nstr c).length - k := by omega
+  simp [c3]
+
+theorem asciiDigs_append {a b : Str} (ha : AsciiDigs a) (hb : AsciiDigs b) : AsciiDigs (a ++ b) := by
+  intro c hc
+  rcases List.mem_append.mp hc with h | h
+  · exact ha c h
+  · exact hb c h
+
+theorem asciiDigs_replicate (m : Nat) : AsciiDigs (List.replicate m 48) := by
+  intro c hc
+  have := List.eq_of_mem_replicate hc
+  omega
+
+theorem parseNatDv_zeros {dv : Nat → Option Nat} (h : DvOK dv) (m : Nat) (s : Str) :
+    parseNatDv dv (List.replicate m 48 ++ s) = parseNatDv dv s := by
+  induction m with
+  | zero => rfl
+  | succ m ih =>
+    have h0 := h.1 0 (by omega)
+    simp only [Nat.add_zero] at h0
+    unfold parseNatDv at ih ⊢
+    simp only [List.replicate_succ, List.cons_append, List.foldl_cons, h0]
+    simpa using ih
+
+/-- Under the exact guard `k < len(str(c)) + 6` (`k ≥ 1` fractional digits, coefficient `c`) `str(Decimal)` is plain:
+a non-empty integer part, a dot and exactly `k` fractional digits whose digits read back to `c`. (When the guard
+fails CPython prints scientific notation — the recorded finding `tiny-amount-scientific`.) -/
+theorem decStr_frac_shape (c k : Nat) (h0 : 1 ≤ k) (h2 : k < (nstr c).length + 6) :
+    ∃ ip fp, decStr false c (-(k : Int)) = ip ++ 46 :: fp ∧ AsciiDigs ip ∧ AsciiDigs fp ∧ ip ≠ [] ∧ fp.length = k ∧
+      ∀ dv, DvOK dv → parseNatDv dv (ip ++ fp) = c := by
+  by_cases h1 : (nstr c).length ≤ k
+  · refine ⟨[48], List.replicate (k - (nstr c).length) 48 ++ nstr c, ?_, ?_, ?_, by simp, ?_, ?_⟩
+    · rw [decStr_fracA c k h1 h2]; rfl
+    · intro x hx; simp at hx; omega
+    · exact asciiDigs_append (asciiDigs_replicate _) (nstr_ascii c)
+    · simp; omega
+    · intro dv hdv
+      have := parseNatDv_zeros hdv (k - (nstr c).length + 1) (nstr c)
+      rw [List.replicate_succ] at this
+      simpa [parseNatDv_nstr hdv] using this
+  · refine ⟨(nstr c).take ((nstr c).length - k), (nstr c).drop ((nstr c).length - k), ?_, ?_, ?_, ?_, ?_, ?_⟩
+    · exact decStr_fracB c k h0 (by omega)
+    · intro x hx; exact nstr_ascii c x (List.mem_of_mem_take hx)
+    · intro x hx; exact nstr_ascii c x (List.mem_of_mem_drop hx)
+    · intro hn
+      have : ((nstr c).take ((nstr c).length - k)).length = 0 := by rw [hn]; rfl
+      rw [List.length_take] at this; omega
+    · rw [List.length_drop]; omega
+    · intro dv hdv; rw [List.take_append_drop]; exact parseNatDv_nstr hdv c
+
+/-- `(?P<amount>\\d*\\.?\\d+)` on `ip . fp` (integer part possibly empty) followed by a unit letter -/
+theorem matchAmount_frac {dv : Nat → Option Nat} (h : DvOK dv) (ip fp : Str) (u : Nat) (rest : Str)
+    (hip : AsciiDigs ip) (hfp : AsciiDigs fp) (hne : fp ≠ []) (hu : dv u = none) :
+    matchAmount dv (ip ++ 46 :: fp ++ u :: rest) = some (ip ++ 46 :: fp, u :: rest) := by
+  unfold matchAmount
+  have h46 : dv 46 = none := h.2 46 (by decide)
+  have e1 : ip ++ 46 :: fp ++ u :: rest = ip ++ (46 :: (fp ++ u :: rest)) := by simp
+  rw [e1, takeDigits_append h ip _ hip, takeDigits_nondigit 46 _ h46]
+  simp only [List.append_nil, List.drop_left]
+  rw [takeDigits_append h fp _ hfp, takeDigits_nondigit u rest hu]
+  cases fp with
+  | nil => exact absurd rfl hne
+  | cons a r => simp
+
+/-- `Decimal('ip.fp')` -/
+theorem parseDecimal_frac {dv : Nat → Option Nat} (h : DvOK dv) (ip fp : Str) (hip : AsciiDigs ip) :
+    parseDecimal dv (ip ++ 46 :: fp) = .dec false (parseNatDv dv (ip ++ fp)) (-(fp.length : Int)) := by
+  unfold parseDecimal
+  have h46 : dv 46 = none := h.2 46 (by decide)
+  rw [takeDigits_append h ip _ hip, takeDigits_nondigit 46 _ h46]
+  simp
+
 /-! ## ISO renderings -/
 
 def d2 (n : Nat) : Str := [48 + n / 10, 48 + n % 10]
